@@ -299,6 +299,9 @@ func Summarize(suffix string, fn any) {}
 
 func AssumeEq(a, b []byte)     { Assume(eq(a, b)) }
 func EqBytes(a, b []byte) bool { return eq(a, b) }
+// MemoPut / MemoGet are engine-only helpers for the environment models.
+func MemoPut(table string, val []byte, key ...[]byte)        {}
+func MemoGet(table string, key ...[]byte) ([]byte, bool)     { return nil, false }
 func SameBytes(a, b []byte) bool { return eq(a, b) }
 func And(a, b bool) bool       { return a && b }
 func Or(a, b bool) bool        { return a || b }
